@@ -11,14 +11,35 @@ from checks import treegen
 from checks.C04 import tname
 
 
-def run_walk(ctx, inputs, tag):
+def sugar_table(p1, p2):
+    """abstract description of the application wsugar::W of harness/tree_driver.cpp (built with the REAL rParamI / rToggle / rRecur / rRecurp /
+    rRecurs / rEnabledBy macros); ids as the driver assigns them; the pointer sub-trees are null or not according to the state"""
+    L = treegen.lit
+    def leaf(i, name, alts, meta=()):
+        pat = dict(segs=[L(name)], types=dict(has=True, alts=[[ord(c) for c in a] for a in alts]))
+        return dict(id=i, name=[ord(c) for c in treegen.render(pat)], pat=pat, leaf=True, meta=list(meta), ptr="member", enabledby=0, sub=dict(dflt=False, ports=[]))
+    def sub(i, segs, base, ptr="member", enabledby=0):
+        pat = dict(segs=segs, types=dict(has=False, alts=[]))
+        return dict(id=i, name=[ord(c) for c in treegen.render(pat)], pat=pat, leaf=False, meta=treegen.meta_bytes([("enabled by", "en")]) if enabledby else [], ptr=ptr, enabledby=enabledby,
+                    sub=dict(dflt=False, ports=[leaf(base + 1, "u", ["", "i"]), leaf(base + 2, "v", ["", "i"])]))
+    return dict(dflt=False, ports=[
+        leaf(1, "x", ["", "i"]), leaf(2, "en", ["", "T", "F"], treegen.meta_bytes([("toggle", None)])),
+        sub(3, [L("m/")], 30, enabledby=2), leaf(4, "m", [""]),
+        sub(5, [L("p1/")], 50, ptr="member" if p1 else "null"), sub(6, [L("p2/")], 60, ptr="member" if p2 else "null"),
+        sub(7, [L("arr"), dict(k="enum", n=2), L("/")], 70)])
+
+
+def run_walk(ctx, inputs, tag, mode="walk"):
     inp = ctx.path("win_%s.ndjson" % tag)
     with open(inp, "w") as f:
         for x in inputs:
             d = dict(table=x["table"], rt=x.get("rt", False), multi=x.get("multi", False), state={str(k): v for k, v in x.get("state", {}).items()})
+            for k in ("p1", "p2", "en"):
+                if k in x:
+                    d[k] = x[k]
             f.write(json.dumps(d, separators=(",", ":")) + "\n")
     out = ctx.path("walk_%s.ndjson" % tag)
-    ctx.driver("tree_driver", "asan", ["walk", inp, out])
+    ctx.driver("tree_driver", "asan", [mode, inp, out])
     rej = ctx.validate("PortTreeTrace", "PortTreeTrace.cfg", out, timeout=3000)
     recs = ctx.read_ndjson(out)
     for i, r in enumerate(recs, 1):
@@ -40,8 +61,8 @@ def run_walk(ctx, inputs, tag):
 def run(ctx):
     ctx.rule = ("every table of PortTreeGen (flat4, struct2/3) and seeded random tables (depth 1..4, #N at any level, multi-component sub-tree names like "
                 "a#2/x#2/z/, ':types'; with a runtime object: null pointers and sibling 'enabled by' toggles in every on/off state) x name-buffer prefixes "
-                "'', '/', '/x/'; evaluations = walks + reported addresses dispatched; non-trivial = distinct (table, state) reporting >= 6 addresses")
-    ctx.assumptions = ["sub-tree callbacks of the harness follow the rRecur*/rRecurp contract (set the child object, null pointer => skip)",
+                "'', '/', '/x/'; plus one application built with the real rRecur/rRecurp/rRecurs/rEnabledBy/rToggle macros in all 8 states of its two pointers and its toggle, with and without runtime object; evaluations = walks + reported addresses dispatched; non-trivial = distinct (table, state) reporting >= 6 addresses")
+    ctx.assumptions = ["generated tables: sub-tree callbacks of the harness follow the rRecur*/rRecurp contract (set the child object, null pointer => skip)",
                        "dispatch of reported addresses is only required for single-component sub-tree names (the SNIP contract of the sugar callbacks)",
                        "enabling toggles are siblings of the sub-tree they enable"]
     if ctx.replay:
@@ -74,6 +95,10 @@ def run(ctx):
                 inputs.append(dict(table=tb, rt=True, multi=multi, state=st))
         inputs.append(dict(table=tb, rt=False, multi=multi, state={t: True for t in treegen_all_toggles(tb)}))
     n += run_walk(ctx, inputs, "random")
+    # the same walk over an application built with the library's own sub-tree macros, in every state of its two pointers and its enabling toggle
+    sug = [dict(table=sugar_table(p1, p2), rt=rt, p1=p1, p2=p2, en=en, state={2: en}) for p1 in (False, True) for p2 in (False, True) for en in (False, True) for rt in (False, True)]
+    n += run_walk(ctx, sug, "sugar", mode="walksugar")
+    ctx.notes["sugar_application_states_walked"] = len(sug)
     ctx.notes["tables_walked"] = n
 
 
